@@ -165,6 +165,10 @@ func parseArEntry(line []byte) (*ArEntry, error) {
 		*target.Pointer = intValue
 	}
 
+	if entry.Size < 0 {
+		return nil, fmt.Errorf("failed to parse entry Size: negative")
+	}
+
 	return &entry, nil
 }
 
